@@ -373,7 +373,7 @@ def run(ctx):
     # cell size unchanged: tiny / huge absolute gradients.  Judged against the exact formulas on the INTEGER raster
     # (aspect unchanged; tan(slope), curvature, hillshade gradient scale by the power of two - ScaleLaw in the model).
     jobs = []
-    for t in range(ctx.pick(90, 900)):
+    for t in range(ctx.pick(90, 500)):
         if t % 3 == 0:
             rows = tile([window(rng.randrange(4 ** 9), 4) for _ in range(6)], 2, 3)
         elif t % 3 == 1:
